@@ -2,6 +2,7 @@
    Only statements, [exact] and [Print Assumptions] live here. *)
 From Coq Require Import List ZArith Bool Sorting.Sorted.
 From SR Require Import Base.ListCount Model.Modifier Proofs.ModifierProofs.
+From SR Require Import Model.SimSkeleton Model.StackingExpected Model.StackingInterp Gen.StackingTable Proofs.StackingTableProofs.
 Import ListNotations.
 Open Scope Z_scope.
 
@@ -172,3 +173,18 @@ Theorem C05_nonvacuous :
   map snd (tg s 1) = [3; 4] /\ slots s 1 = [2; 3] /\ nslot s = 4 /\
   rev (rem_slots (evs s)) = [0; 1] /\ dsp_slots (evs s) = [1] /\ length (evs s) = 12%nat.
 Proof. exact demo_run. Qed.
+
+
+(* The stacking logic of the model IS the stacking logic of the source.  `go2coq StackingTable` translates every
+   statement of add.go (AddModifier and its seven stacking helpers, stackCount, attemptResist), of remove.go
+   (RemoveModifier, RemoveModifierFromSource, RemoveSelf, DispelStatus) and of tick.go (Tick, modifierPhaseEnd) into a
+   first-order step table, Gen/StackingTable.v, regenerated on every run.  (1) That table and the constants equal the
+   pinned table Model/StackingExpected.v (lookup by name / by name and source, count and duration updates, early
+   returns, surviving instance, order of emits: an edit of any of them breaks this equation).  (2) stackCount of the
+   table, run on the model's instance record, is Modifier.stack_count for every instance and every previous count.
+   (3) The `switch config.Stacking` of AddModifier with the helper it selects (unique, replaceBySource, replace,
+   multiple, refresh, prolong, merge), run on the model's state, is Modifier.stack for every world, listener runner,
+   state, unit, behaviour and incoming instance. *)
+Theorem C05_stacking_is_the_source : stacking_tie.
+Proof. exact stacking_is_the_source. Qed.
+Print Assumptions C05_stacking_is_the_source.
